@@ -188,7 +188,7 @@ def shapes(tier, seed):
     out.append(('sts', 'parsed+'))
     out.append(('sts', 'parsed-'))
     # the crate's own glue between parser and authenticator (whole pipeline): timestamps with a fraction, near midnight, with an offset
-    for variant in ('frac', 'midnight', 'offset'):
+    for variant in ('frac', 'midnight', 'offset', 'junk'):
         for carrier in ('header', 'query'):
             out.append(('pipeline', variant, carrier))
     return out
@@ -270,6 +270,14 @@ def run_shape(prog, shape, tier, seed, res):
             fr = [digit(ctx, 'pf%d' % i) for i in range(nfr)]
             if variant == 'frac':
                 text = conc_bytes('20150830T1235') + [s1, s0] + conc_bytes('.') + fr + conc_bytes('Z')
+                utc = (2015, 8, 30, 12, 35)
+                server = P.instant(P.T0)
+            elif variant == 'junk':
+                # a complete well-formed timestamp followed by one or two further visible bytes (comma included): never a timestamp
+                j0 = ctx.fresh_bv('pj0', 8)
+                j1 = ctx.fresh_bv('pj1', 8)
+                ctx.assume(z3.And(z3.UGT(j0, 0x20), z3.ULT(j0, 0x7F), z3.UGE(j1, 0x20), z3.ULT(j1, 0x7F)))
+                text = conc_bytes('20150830T1235') + [s1, s0] + conc_bytes('Z') + [Int('u8', j0), Int('u8', j1)]
                 utc = (2015, 8, 30, 12, 35)
                 server = P.instant(P.T0)
             elif variant == 'midnight':
@@ -360,6 +368,13 @@ def run_shape(prog, shape, tier, seed, res):
         if v[0] == 'pipeline':
             from . import pipeline as P
             _, text, utc, (s1, s0), scope, o, calls, prov, au_dt, fr = v
+            if shape[1] == 'junk':
+                hm = [c for c in calls if c.kind == 'hmac']
+                res.witnesses.add('pipeline-junk')
+                if o[0] == 'ok' or o[1] != 'IncompleteSignature' or hm or prov.calls or au_dt is not None:
+                    fail(ctx, 'a timestamp followed by extra characters was not refused with the ISO-8601 format error (outcome %s, %d HMAC evaluations, %d provider calls) (pipeline)'
+                         % (o[0] if o[0] == 'ok' else o[1], len(hm), len(prov.calls)), text, False)
+                return
             res.witnesses.add('pipeline-sts')
             if au_dt is None:
                 fail(ctx, 'no authenticator for a well-formed timestamp (pipeline)', text, False)
@@ -654,6 +669,11 @@ def replay_finding(rp, f):
         can = rp.ask({'op': 'canonical', 'request': j, 'options': {'s3': False, 'url_encode_form': False}, 'requirements': {'kind': 'none'}})
         au = can.get('ok', {}).get('authenticator', {})
         ref = py_reference(t)
+        if ref[0] == 'dontcare' and ',' in t and py_reference(t.replace(',', '.'))[0] == 'ok':
+            # the comma is ISO 8601's own decimal sign and the crate's grammar names it: in the pipeline shapes it counts as well-formed
+            ref = ('ok',) + tuple(ref[1:])
+        if variant == 'junk':
+            return 'ok' in au, {'native_authenticator': 'accepted' if 'ok' in au else au.get('err', au), 'reference': ref}
         if 'ok' not in au or ref[0] != 'ok':
             return ('ok' not in au) and ref[0] == 'ok', {'native_authenticator': au, 'reference': ref}
         sts = bytes.fromhex(au['ok']['string_to_sign_hex'] or '').decode('latin-1').split('\n')
